@@ -180,6 +180,7 @@ class ProtocolContext:
 
             if timed_out:
                 assert self._cmd is not None, f"{self}: Coding error"  # mypy hint
+                self._cmd_tx_count += 1  # counted here, when the re-Tx actually occurs
                 self._send_cmd(self._cmd, is_retry=True)
 
             if isinstance(self._state, IsInIdle):
@@ -266,7 +267,7 @@ class ProtocolContext:
             assert isinstance(
                 self._cmd_tx_count, int
             ), f"{self}: Coding error"  # mypy hint
-            self._cmd_tx_count += 1
+            # NOTE: tx_count is incremented by effect_state(), if it is not superseded
 
         elif isinstance(self._state, WantEcho):
             assert self._qos is not None, f"{self}: Coding error"  # mypy hint
